@@ -118,7 +118,7 @@ Definition may_drop_uid (r : request) : bool :=
   | _ => false
   end.
 
-Definition pred_c01 (g : ghost) (w : world) (a : action) (O : oracle) (i : iobs) : list Z :=
+Definition pred_c01 (g : ghost) (w : world) (a : action) (O : oracle) (w' : world) (i : iobs) : list Z :=
   match a with
   | AReq r =>
       let before := uid_in (sess_of w (q_browser r)) in
@@ -135,7 +135,7 @@ Definition pred_c01 (g : ghost) (w : world) (a : action) (O : oracle) (i : iobs)
 Definition sms_sent_to (g : ghost) (number code : bytes) : bool :=
   existsb (fun s => beqb (sm_to s) number && beqb (sm_text s) code) (g_smss g).
 
-Definition pred_c02 (g : ghost) (w : world) (a : action) (O : oracle) (i : iobs) : list Z :=
+Definition pred_c02 (g : ghost) (w : world) (a : action) (O : oracle) (w' : world) (i : iobs) : list Z :=
   match a with
   | AReq r =>
       let sess := sess_of w (q_browser r) in
@@ -174,7 +174,7 @@ Definition interactive_login (r : request) : bool :=
   | _ => false
   end.
 
-Definition pred_c03 (g : ghost) (w : world) (a : action) (O : oracle) (i : iobs) : list Z :=
+Definition pred_c03 (g : ghost) (w : world) (a : action) (O : oracle) (w' : world) (i : iobs) : list Z :=
   match a with
   | AReq r =>
       let before := uid_in (sess_of w (q_browser r)) in
@@ -213,9 +213,9 @@ Definition pred_c03 (g : ghost) (w : world) (a : action) (O : oracle) (i : iobs)
 (* ---- C10: logout ------------------------------------------------------------------- *)
 Definition authboss_session_keys : list bytes :=
   [k_uid; k_halfauth; k_last_action; k_twofactor; k_2fa_token; k_2fa_authed; k_oauth_state; k_oauth_params;
-   k_totp_secret; k_totp_pending; k_sms_number; k_sms_secret; k_sms_last; k_sms_pending].
+   k_totp_secret; k_totp_pending; k_sms_number; k_sms_secret; k_sms_secret_number; k_sms_last; k_sms_pending].
 
-Definition pred_c10 (g : ghost) (w : world) (a : action) (O : oracle) (i : iobs) : list Z :=
+Definition pred_c10 (g : ghost) (w : world) (a : action) (O : oracle) (w' : world) (i : iobs) : list Z :=
   match a with
   | AReq r =>
       match q_route r with
@@ -233,6 +233,379 @@ Definition pred_c10 (g : ghost) (w : world) (a : action) (O : oracle) (i : iobs)
           else
             (* other methods never touch the jars *)
             (if jar_eq sess (io_sess i) && jar_eq (cook_of w (q_browser r)) (io_cook i) then [] else [1103])
+      | _ => []
+      end
+  | _ => []
+  end.
+
+(* ---- shared: which records changed ------------------------------------------------- *)
+Definition pre_users (w : world) : list user := map snd (s_users (w_st w)).
+
+(* facets of user U that differ between the pre-state and the implementation's post-state *)
+Definition changed_facets (w : world) (i : iobs) (pid : bytes) : list Z :=
+  match user_of w pid, iuser_of i pid with
+  | Some a, Some b => user_facets a b
+  | None, None => []
+  | _, _ => [15]
+  end.
+Definition all_pids (w : world) (i : iobs) : list bytes :=
+  nodup bytes_dec (map u_pid (pre_users w) ++ map u_pid (io_users i)).
+(* no user other than [except] changed in any facet of [fs] *)
+Definition others_unchanged (w : world) (i : iobs) (except : option bytes) (fs : list Z) : bool :=
+  forallb (fun p => (match except with Some e => beqb e p | None => false end) ||
+                    forallb (fun c => negb (existsb (Z.eqb c) fs)) (changed_facets w i p))
+          (all_pids w i).
+Definition facet_in (c : Z) (l : list Z) : bool := existsb (Z.eqb c) l.
+
+(* ---- C04: the lock triple follows the machine proved correct in Props/C04 ----------- *)
+Definition pred_c04 (g : ghost) (w : world) (a : action) (O : oracle) (w' : world) (i : iobs) : list Z :=
+  if facet_in 153 (users_facets (map snd (s_users (w_st w'))) (io_users i)) then [104] else [].
+
+(* ---- C05: confirm / recover links --------------------------------------------------- *)
+Definition find_user (f : user -> bool) (w : world) : option user := find f (pre_users w).
+
+Definition pw_rules_ok (vals : amap) : bool :=
+  valid [password_rule] pw_pairs vals && (length (aget f_password vals) <=? 72)%nat.
+
+Definition pred_c05 (g : ghost) (w : world) (a : action) (O : oracle) (w' : world) (i : iobs) : list Z :=
+  match a with
+  | AReq r =>
+      let vals := values_of r in
+      match q_route r with
+      | RConfirm =>
+          if negb (has_mod cfg MConfirm && meth_eqb (q_meth r) (c_mail_method cfg)) then [] else
+          let tok := aget f_cnf vals in
+          (* whitespace in the submitted text is refused before decoding (validation) *)
+          let clean := negb (existsb (fun c => is_re_space c || Byte.eqb c x0b) tok) in
+          match (if clean then find_user (fun u => confirm_token_of u tok) w else None) with
+          | Some u =>
+              match iuser_of i (u_pid u) with
+              | Some u' => (if u_confirmed u' && bempty (u_csel u') && bempty (u_cver u') then [] else [105]) ++
+                           (if others_unchanged w i (Some (u_pid u)) [151; 152; 154] then [] else [1051])
+              | None => [105]
+              end
+          | None => if others_unchanged w i None [151; 152; 154] then [] else [1052]
+          end
+      | RRecoverEnd =>
+          if negb (has_mod cfg MRecover && meth_eqb (q_meth r) POST) then [] else
+          let tok := aget f_token vals in
+          match (if pw_rules_ok vals then find_user (fun u => recover_token_of O u tok) w else None) with
+          | Some u =>
+              match iuser_of i (u_pid u) with
+              | Some u' => (if beqb (u_password u') (px (aget f_password vals)) && bempty (u_rsel u') && bempty (u_rver u')
+                            then [] else [1053]) ++
+                           (if others_unchanged w i (Some (u_pid u)) [151; 152; 154] then [] else [1054])
+              | None => [1053]
+              end
+          | None => if others_unchanged w i None [151; 152; 154] then [] else [1055]
+          end
+      | _ => []
+      end
+  | _ => []
+  end.
+
+(* ---- C06: password change revokes ---------------------------------------------------- *)
+Definition rm_of_i (i : iobs) (pid : bytes) : list bytes := rmlookup pid (io_rm i).
+Definition rm_others_unchanged (w : world) (i : iobs) (except : bytes) : bool :=
+  forallb (fun p => beqb p except || beqb_list (rmlookup p (s_rm (w_st w))) (rm_of_i i p)) (all_pids w i).
+
+Definition pred_c06 (g : ghost) (w : world) (a : action) (O : oracle) (w' : world) (i : iobs) : list Z :=
+  match a with
+  | AUpdatePassword pid pw =>
+      if io_err i then [] else
+      match iuser_of i pid with
+      | Some u' => (if beqb (u_password u') (px pw) then [] else [106]) ++
+                   (match rm_of_i i pid with [] => [] | _ => [1061] end) ++
+                   (if others_unchanged w i (Some pid) [151] && rm_others_unchanged w i pid then [] else [1062])
+      | None => [106]
+      end
+  | AReq r =>
+      match q_route r with
+      | RRecoverEnd =>
+          (* a password field that changed must be the hash of the submitted password, the link is spent,
+             and with remember loaded every token of that account is gone; nobody else is touched *)
+          flat_map (fun p =>
+            if facet_in 151 (changed_facets w i p) then
+              match iuser_of i p with
+              | Some u' =>
+                  (if beqb (u_password u') (px (aget f_password (values_of r))) then [] else [1063]) ++
+                  (if bempty (u_rsel u') && bempty (u_rver u') then [] else [1064]) ++
+                  (if has_mod cfg MRemember then match rm_of_i i p with [] => [] | _ => [1065] end else []) ++
+                  (if others_unchanged w i (Some p) [151] && rm_others_unchanged w i p then [] else [1066])
+              | None => [1063]
+              end
+            else []) (all_pids w i)
+      | _ => []
+      end
+  | _ => []
+  end.
+
+(* ---- C07: remember cookies ------------------------------------------------------------- *)
+Definition cookie_owner (w : world) (c : bytes) : option bytes :=
+  option_map u_pid (find_user (fun u => cookie_valid_for w c (u_pid u)) w).
+
+Definition pred_c07 (g : ghost) (w : world) (a : action) (O : oracle) (w' : world) (i : iobs) : list Z :=
+  match a with
+  | AReq r =>
+      let b := q_browser r in
+      let before := uid_in (sess_of w b) in
+      let after := uid_in (io_sess i) in
+      match q_route r with
+      | RApp _ _ _ _ _ true expiremw =>
+          match before, alookup k_rm (cook_of w b) with
+          | None, Some c =>
+              if io_status i =? 0 then [] else
+              match cookie_owner w c with
+              | Some U =>
+                  (* a valid cookie logs its owner in, rotates, marks half-auth and dies *)
+                  (if obytes_eq after (Some U) then [] else [1072]) ++
+                  (if ahas k_halfauth (io_sess i) then [] else [1074]) ++
+                  (if obytes_eq (alookup k_rm (io_cook i)) (Some c) || negb (ahas k_rm (io_cook i)) then [1075] else []) ++
+                  (match b64url_dec c with
+                   | Some raw => if bmem (sx raw) (rm_of_i i U) then [1076] else []
+                   | None => [] end) ++
+                  (if existsb (fun x => beqb (snd x) c) (g_used g) then [1077] else [])
+              | None =>
+                  (* anything else logs nobody in and is deleted from the client *)
+                  (match after with Some _ => [1071] | None => [] end) ++
+                  (if ahas k_rm (io_cook i) then [1078] else [])
+              end
+          | _, _ => []
+          end
+      | RLogin | ROtpLogin =>
+          (* a cookie is only issued when asked for *)
+          if obytes_eq (alookup k_rm (cook_of w b)) (alookup k_rm (io_cook i)) then []
+          else if ahas k_rm (io_cook i) && negb (beqb (aget k_rm (values_of r)) v_true) then [1073] else []
+      | _ => []
+      end
+  | _ => []
+  end.
+
+(* ---- C12: one-time secrets ---------------------------------------------------------------- *)
+Definition used_before (g : ghost) (U x : bytes) : bool :=
+  existsb (fun p => beqb (fst p) U && beqb (snd p) x) (g_used g).
+
+Definition pred_c12 (g : ghost) (w : world) (a : action) (O : oracle) (w' : world) (i : iobs) : list Z :=
+  (if forallb (fun u => (length (if bempty (u_otps u) then [] else bsplit ","%byte (u_otps u)) <=? 5)%nat) (io_users i)
+   then [] else [1125]) ++
+  match a with
+  | AReq r =>
+      let b := q_browser r in
+      let vals := values_of r in
+      let before := uid_in (sess_of w b) in
+      let after := uid_in (io_sess i) in
+      if obytes_eq before after then [] else
+      match after with
+      | None => []
+      | Some U =>
+          match q_route r, iuser_of i U with
+          | ROtpLogin, Some u' =>
+              let x := aget f_password vals in
+              (if used_before g U x then [112] else []) ++ (if otp_valid u' x then [1121] else [])
+          | RTotpValidate, Some u' =>
+              let rc := aget f_recovery_code vals in
+              if bempty rc then
+                match user_of w U with
+                | Some u => if beqb (u_totp_last u) (aget f_code vals) then [1124] else []
+                | None => [] end
+              else (if used_before g U rc then [1122] else []) ++ (if rc_valid u' rc then [1123] else [])
+          | RSmsValidate, Some u' =>
+              let rc := aget f_recovery_code vals in
+              (if ahas k_sms_secret (io_sess i) then [1126] else []) ++
+              (if bempty rc then [] else (if used_before g U rc then [1122] else []) ++ (if rc_valid u' rc then [1123] else []))
+          | _, _ => []
+          end
+      end
+  | _ => []
+  end.
+
+(* ---- C13: two-factor settings ---------------------------------------------------------------- *)
+Definition mailed_to (g : ghost) (email tok : bytes) : bool :=
+  existsb (fun m => bmem email (m_to m) && beqb (m_kind m) (bs "2fa") && bcontains (query_escape tok) (m_url m)) (g_mails g).
+
+Definition tf_changed (a b : user) : bool :=
+  negb (beqb (u_totp a) (u_totp b) && beqb (u_sms a) (u_sms b) && beqb (u_recovery a) (u_recovery b)).
+
+(* the recovery list lost exactly one entry that verifies [rc] *)
+Definition consumed_one (pre post rc : bytes) : bool :=
+  negb (bempty rc) &&
+  let l := bsplit ","%byte pre in
+  existsb (fun h => pwcheck XC h rc && beqb post (bjoin ","%byte (remove_first h l))) l.
+
+Definition pred_c13 (g : ghost) (w : world) (a : action) (O : oracle) (w' : world) (i : iobs) : list Z :=
+  match a with
+  | AReq r =>
+      let b := q_browser r in
+      let sess := sess_of w b in
+      let vals := values_of r in
+      let owner := uid_in sess in
+      let full := negb (ahas k_halfauth sess) in
+      let code := aget f_code vals in
+      let rc := aget f_recovery_code vals in
+      flat_map (fun p =>
+        match user_of w p, iuser_of i p with
+        | Some u, Some u' =>
+            if negb (tf_changed u u') then [] else
+            (* consuming a recovery code at a validate step is the one change a pending login may make *)
+            if (match q_route r with RTotpValidate | RSmsValidate => true | _ => false end) &&
+               beqb (u_totp u) (u_totp u') && beqb (u_sms u) (u_sms u') && consumed_one (u_recovery u) (u_recovery u') rc &&
+               (obytes_eq owner (Some p) || obytes_eq (alookup k_totp_pending sess) (Some p) || obytes_eq (alookup k_sms_pending sess) (Some p))
+            then [] else
+            if negb (obytes_eq owner (Some p) && full) then [113] else
+            match q_route r with
+            | RTotpConfirm =>
+                if beqb (u_totp u') (aget k_totp_secret sess) && negb (bempty (u_totp u')) && totp_accepts O (u_totp u') code &&
+                   beqb (u_sms u) (u_sms u') then [] else [1131]
+            | RSmsConfirm =>
+                if beqb (u_sms u') (aget k_sms_number sess) && negb (bempty (u_sms u')) && negb (bempty code) &&
+                   beqb code (aget k_sms_secret sess) && sms_sent_to g (u_sms u') code && beqb (u_totp u) (u_totp u') then [] else [1132]
+            | RTotpRemove =>
+                if bempty (u_totp u') && beqb (u_sms u) (u_sms u') &&
+                   (if bempty rc then totp_accepts O (u_totp u) code && beqb (u_recovery u) (u_recovery u')
+                    else consumed_one (u_recovery u) (u_recovery u') rc) then [] else [1133]
+            | RSmsRemove =>
+                if bempty (u_sms u') && beqb (u_totp u) (u_totp u') &&
+                   (if bempty rc then negb (bempty code) && beqb code (aget k_sms_secret sess) && sms_sent_to g (u_sms u) code &&
+                                      beqb (u_recovery u) (u_recovery u')
+                    else consumed_one (u_recovery u) (u_recovery u') rc) then [] else [1134]
+            | RRecoveryRegen => if beqb (u_totp u) (u_totp u') && beqb (u_sms u) (u_sms u') then [] else [1135]
+            | RTotpValidate | RSmsValidate =>
+                (* a logged-in owner re-validating may consume one of their codes *)
+                if beqb (u_totp u) (u_totp u') && beqb (u_sms u) (u_sms u') && consumed_one (u_recovery u) (u_recovery u') rc then [] else [1136]
+            | _ => [1137]
+            end
+        | _, _ => []
+        end) (all_pids w i) ++
+      (* e-mail authorisation *)
+      (if c_email_auth cfg then
+         (if negb (ahas k_2fa_authed sess) && ahas k_2fa_authed (io_sess i) then
+            match q_route r, owner with
+            | REmailVerifyEnd _, Some p =>
+                match user_of w p with
+                | Some u =>
+                    let tok := aget f_token vals in
+                    if negb (bempty tok) && obytes_eq (alookup k_2fa_token sess) (Some tok) && mailed_to g (u_email u) tok && full
+                    then [] else [1138]
+                | None => [1138]
+                end
+            | _, _ => [1138]
+            end
+          else []) ++
+         (match q_route r with
+          | RTotpSetup | RTotpConfirm | RTotpQR | RSmsSetup | RSmsConfirm =>
+              (* the handler's own pages only ever appear to an authorised session *)
+              if (bprefix (bs "totp2fa_") (io_page i) || bprefix (bs "sms2fa_") (io_page i)) &&
+                 negb (beqb (aget k_2fa_authed sess) v_true) then [1139] else []
+          | _ => []
+          end)
+       else [])
+  | _ => []
+  end.
+
+(* ---- C14: OAuth2 callbacks ------------------------------------------------------------------------ *)
+Definition pred_c14 (g : ghost) (w : world) (a : action) (O : oracle) (w' : world) (i : iobs) : list Z :=
+  match a with
+  | AReq r =>
+      match q_route r with
+      | ROAuthCallback prov =>
+          if negb (has_mod cfg MOAuth2 && bmem prov (c_providers cfg) && meth_eqb (q_meth r) GET) then [] else
+          let sess := sess_of w (q_browser r) in
+          let matching := match alookup k_oauth_state sess with
+                          | Some st => negb (bempty st) && beqb (aget f_state (q_query r)) st
+                          | None => false end in
+          if negb matching then
+            (* fails without creating or updating any user, nobody logged in *)
+            (match io_calls i with [] => [] | _ => [114] end) ++
+            (if list_eqb user_eqb (pre_users w) (io_users i) then [] else [1141]) ++
+            (if obytes_eq (uid_in sess) (uid_in (io_sess i)) then [] else [1142])
+          else
+            (* the state is spent by a matching callback whose response is written *)
+            (if (io_status i =? 0) || negb (ahas k_oauth_state (io_sess i)) then [] else [1143]) ++
+            (if negb (bempty (aget f_error (q_query r))) && negb (obytes_eq (uid_in sess) (uid_in (io_sess i))) then [1144] else [])
+      | _ => []
+      end
+  | _ => []
+  end.
+
+(* ---- C19: registration --------------------------------------------------------------------------------- *)
+Definition pred_c19 (g : ghost) (w : world) (a : action) (O : oracle) (w' : world) (i : iobs) : list Z :=
+  match a with
+  | AReq r =>
+      match q_route r, q_meth r with
+      | RRegister, POST =>
+          if negb (has_mod cfg MRegister) || q_badbody r then [] else
+          let vals := values_of r in
+          let pid := aget pidf vals in
+          let pw := aget f_password vals in
+          let pre := pre_users w in
+          let post := io_users i in
+          let policy_ok := valid [pid_rule cfg; password_rule] pw_pairs vals in
+          let should_create := policy_ok && (length pw <=? 72)%nat && negb (existsb (fun u => beqb (u_pid u) pid) pre) in
+          let before := uid_in (sess_of w (q_browser r)) in
+          let after := uid_in (io_sess i) in
+          (* existing records never change *)
+          (if forallb (fun u => match iuser_of i (u_pid u) with Some u' => user_eqb u u' | None => false end) pre then [] else [119]) ++
+          (if should_create then
+             match iuser_of i pid with
+             | Some u' =>
+                 (if (length post =? S (length pre))%nat then [] else [1191]) ++
+                 (if beqb (u_password u') (px pw) then [] else [1192]) ++
+                 (if forallb (fun kv => bmem (fst kv) [f_email; f_password]) (u_arb u') then [] else [1193]) ++
+                 (if has_mod cfg MConfirm
+                  then (if negb (u_confirmed u') && obytes_eq before after then [] else [1194])
+                  else (if obytes_eq after (Some pid) then [] else [1195]))
+             | None => [1196]
+             end
+           else
+             (if (length post =? length pre)%nat then [] else [1197]) ++
+             (if obytes_eq before after then [] else [1198]))
+      | _, _ => []
+      end
+  | _ => []
+  end.
+
+(* ---- C09: idle expiry ------------------------------------------------------------------------------------- *)
+Definition pred_c09 (g : ghost) (w : world) (a : action) (O : oracle) (w' : world) (i : iobs) : list Z :=
+  match a with
+  | AReq r =>
+      match q_route r with
+      | RApp _ _ _ _ _ _ true =>
+          let sess := sess_of w (q_browser r) in
+          match uid_in sess with
+          | None => []
+          | Some U =>
+              let stamp := match alookup k_last_action sess with Some s => zparse s | None => None end in
+              let margin := match stamp with Some d => o_now O - (d + c_expire_after cfg) | None => 0 - 10 end in
+              if (0 - 2 <=? margin) && (margin <=? 2) then []       (* within a second or two of the deadline: not judged *)
+              else if (match stamp with Some _ => 0 <=? margin | None => c_expire_after cfg <=? 0 end) then
+                (* expired: nothing but whitelisted values survives or is visible, nobody is logged in *)
+                (if forallb (fun kv => bmem (fst kv) (c_whitelist cfg) || beqb (fst kv) k_flash_err || beqb (fst kv) k_halfauth && false)
+                            (io_sess i) || (io_status i =? 0) then [] else [109]) ++
+                (if beqb (io_page i) (bs "app") then
+                   match dlookup (bs "pid") (io_data i), dlookup (bs "keys") (io_data i) with
+                   | Some (DStr p), Some (DList ks) =>
+                       (if bempty p || bmem k_uid (c_whitelist cfg) then [] else [1091]) ++
+                       (if forallb (fun k => bmem k (c_whitelist cfg)) ks then [] else [1092])
+                   | _, _ => [] end
+                 else []) ++
+                (if forallb (fun k => negb (bmem k (c_whitelist cfg)) || obytes_eq (alookup k sess) (alookup k (io_sess i)) || (io_status i =? 0))
+                            (map fst sess) then [] else [1093])
+              else
+                (* alive: still the same user, deadline pushed forward *)
+                (if (io_status i =? 0) || obytes_eq (uid_in (io_sess i)) (Some U) then [] else [1094]) ++
+                (if io_status i =? 0 then [] else
+                   match alookup k_last_action (io_sess i) with
+                   | Some s => match zparse s with Some d => if near d (o_now O) then [] else [1095] | None => [1095] end
+                   | None => [1095] end)
+          end
+      | RLogin | ROtpLogin | RTotpValidate | RSmsValidate | RRecoverEnd =>
+          (* login itself starts the idle clock *)
+          if c_expire cfg && negb (obytes_eq (uid_in (sess_of w (q_browser r))) (uid_in (io_sess i))) &&
+             match uid_in (io_sess i) with Some _ => true | None => false end then
+            match alookup k_last_action (io_sess i) with
+            | Some s => match zparse s with Some d => if near d (o_now O) then [] else [1096] | None => [1096] end
+            | None => [1096] end
+          else []
       | _ => []
       end
   | _ => []
